@@ -11,7 +11,7 @@ from mc import core, e1, grammar, values, refmodel
 
 ID = 'C11'
 META = {
-    'rule': "all ordered pairs (thorough: plus triples) over a pool of 20 deliberately overlapping member types, each in 10 nesting "
+    'rule': "all ordered pairs (thorough: plus triples) over a pool of 20 deliberately overlapping member types, each in 15 nesting "
             "forms (plain, nested Union, Optional outside / inside, list element, dict value, Annotated, dataclass field, generic "
             "dataclass field with the type variable on either side, after subscription) x the union of the members' own members and "
             "single-deviation neighbours; member order is read from typing.get_args of the spelled union; the result must be "
@@ -62,12 +62,50 @@ def forms(pane, A, B, C=None):
     out.append(('annotated', AT, lambda v: v, lambda r: r, t.get_args(t.get_args(AT)[0])))
     Holder = grammar.pin(type('Holder', (pane.PaneBase,), {'__annotations__': {'f': U}, '__module__': 'mc.generated'}))
     out.append(('dc_field', Holder, lambda v: {'f': v}, lambda r: r.f, mem))
+    # tuple-literal and struct-literal wrappers (types that are plain Python containers of types)
+    out.append(('tuple_literal', (U, int), lambda v: [v, 1], lambda r: r[0], mem))
+    out.append(('struct_literal', {'k': U}, lambda v: {'k': v}, lambda r: r['k'], mem))
+    out.append(('builtin_list', list[U], lambda v: [v], lambda r: r[0], mem))
+    # a dataclass with class-level custom= : its handlers must reach the union's members exactly as they reach the member alone
+    x3 = _times3(pane)
+    HC = grammar.pin(type('HolderC', (pane.PaneBase,), {'__annotations__': {'f': U}, '__module__': 'mc.generated'}, custom={int: x3}))
+    out.append(('dc_field_class_custom', HC, lambda v: {'f': v}, lambda r: r.f, ('class_custom', mem)))
     from mc.classes_gen import new_class
+    # a type variable that duplicates a later member: Union[T, B, A][A] -> typing keeps the first occurrence
+    G0 = grammar.pin(new_class('GenDup', (pane.PaneBase, t.Generic[T_]), {'__annotations__': {'f': t.Union[T_, B, A]}, '__module__': 'mc.generated'}))
+    exp_dup = t.get_args(t.Union[A, B, A]) if t.get_origin(t.Union[A, B, A]) is t.Union else (t.Union[A, B, A],)
+    out.append(('generic_duplicate', grammar.pin(G0[A]), lambda v: {'f': v}, lambda r: r.f, exp_dup))
     G1 = grammar.pin(new_class('GenL', (pane.PaneBase, t.Generic[T_]), {'__annotations__': {'f': t.Union[T_, B]}, '__module__': 'mc.generated'}))
     out.append(('generic_left', grammar.pin(G1[A]), lambda v: {'f': v}, lambda r: r.f, mem))
     G2 = grammar.pin(new_class('GenR', (pane.PaneBase, t.Generic[T_]), {'__annotations__': {'f': t.Union[A, T_]}, '__module__': 'mc.generated'}))
     out.append(('generic_right', grammar.pin(G2[B]), lambda v: {'f': v}, lambda r: r.f, mem))
     return out
+
+
+_X3: t.List[t.Any] = []
+
+
+def _times3(pane):
+    if not _X3:
+        from pane.converters import Converter
+        from pane.errors import ParseInterrupt, WrongTypeError
+
+        class Times3(Converter):
+            def expected(self, plural=False):
+                return 'int (x3)'
+
+            def try_convert(self, val):
+                if type(val) is int:
+                    return val * 3
+                raise ParseInterrupt()
+
+            def collect_errors(self, val):
+                return None if type(val) is int else WrongTypeError(self.expected(), val)
+
+            def into_data(self, val):
+                return val // 3
+        _X3.append(Times3())
+    return _X3[0]
 
 
 _TRUE_C: t.List[t.Any] = []
@@ -89,6 +127,24 @@ def alone(pane, M, v):
         return ('raw', e)
 
 
+_ALONE_CLS: t.Dict[int, t.Any] = {}
+
+
+def alone_in_class(pane, M, v):
+    """The member alone as the field of a dataclass carrying the same class-level custom=."""
+    from pane.errors import ConvertError
+    C = _ALONE_CLS.get(id(M))
+    if C is None:
+        C = grammar.pin(type('HolderM', (pane.PaneBase,), {'__annotations__': {'f': M}, '__module__': 'mc.generated'}, custom={int: _times3(pane)}))
+        _ALONE_CLS[id(M)] = C
+    try:
+        return ('ok', pane.from_data({'f': values.fresh(v)}, C).f)
+    except ConvertError:
+        return ('rej', None)
+    except Exception as e:  # noqa
+        return ('raw', e)
+
+
 def values_for_members(asts):
     out = []
     for a in asts:
@@ -103,6 +159,9 @@ def values_for_members(asts):
 def judge_union(pane, res, name, U, wrap, unwrap, members, v, cellinfo, cache):
     """One (union form, value) cell."""
     from pane.errors import ConvertError
+    class_custom = False
+    if isinstance(members, tuple) and len(members) == 2 and members[0] == 'class_custom':
+        class_custom, members = True, members[1]
     if members is None:
         flat = t.get_args(U)
         members = flat
@@ -122,10 +181,10 @@ def judge_union(pane, res, name, U, wrap, unwrap, members, v, cellinfo, cache):
     winner = None
     nacc = 0
     for i, M in enumerate(members):
-        key = (id(M), values.ckey(v))
+        key = (id(M), values.ckey(v), class_custom)
         r = cache.get(key)
         if r is None:
-            r = alone(pane, M, v)
+            r = alone(pane, M, v) if not class_custom else alone_in_class(pane, M, v)
             cache[key] = r
             res['transitions'] += 1
         if r[0] == 'raw':
@@ -231,11 +290,14 @@ def run_shard(shard, tier):
     warnings.simplefilter('ignore')
     res = core.new_result()
     ai = shard['a']
-    for bi in range(len(POOL)):
-        run_pair(pane, res, ai, bi, None, tier)
+    for bi in range(ai + 1, len(POOL)):
+        # both member orders in the SAME interpreter (a memo keyed by equality would confuse Union[A, B] with Union[B, A])
+        for x, y in ((ai, bi), (bi, ai), (ai, bi)):
+            run_pair(pane, res, x, y, None, tier)
         if tier == 'thorough':
             for ci in range(len(THIRD)):
                 run_pair(pane, res, ai, bi, ci, tier)
+                run_pair(pane, res, bi, ai, ci, tier)
     if ai == 0:
         res['samples'].append({'union': 'Union[int, float]', 'forms': [f[0] for f in forms(pane, int, float)],
                                'values': [values.expr(v) for v in values_for_members(['int', 'float'])[:8]]})
@@ -246,7 +308,12 @@ def replay(cell):
     pane = core.import_pane()
     warnings.simplefilter('ignore')
     res = core.new_result()
-    run_pair(pane, res, cell['ai'], cell['bi'], cell.get('ci'), 'quick')
+    lo, hi = sorted((cell['ai'], cell['bi']))
+    # the same sequence as the shard: both member orders in one interpreter
+    for x, y in ((lo, hi), (hi, lo), (lo, hi)):
+        run_pair(pane, res, x, y, None, 'quick')
+    if cell.get('ci') is not None:
+        run_pair(pane, res, cell['ai'], cell['bi'], cell.get('ci'), 'quick')
     out = [v for lst in res['violations'].values() for v in lst]
     same = [v for v in out if v['cell'].get('form') == cell.get('form') and v['cell'].get('v') == cell.get('v')]
     return same or out
